@@ -185,44 +185,61 @@ theorem inv_transApply {s s' : St} (h : Inv s) (hs : transApply s = some s') : I
     exact ⟨this.tver_le, this.snap_ok, this.view_ok, this.view_snap, this.accel, this.div, this.strobed_ok⟩
   · simp at hs
 
-theorem inv_transEnd {s s' : St} {made : Bool} (h : Inv s) (hs : transEnd s = some (s', made)) : Inv s' := by
+theorem transEnd_some {s s' : St} {made : Bool} {olds results : List (Option Ent)}
+    (hs : transEnd s olds results = some (s', made)) :
+    s' = transFinish s made ∧ made = decide (results ≠ olds) := by
   unfold transEnd at hs
   split at hs
-  · rename_i t m _
-    simp only [Option.some.injEq, Prod.mk.injEq] at hs
-    obtain ⟨h1, h2⟩ := hs
-    subst h2
-    subst h1
-    cases m
-    · -- nothing changed
-      simp
-      exact ⟨h.tver_le, h.snap_ok, h.view_ok, h.view_snap, h.accel, h.div, h.strobed_ok⟩
-    · by_cases ha : s.accelerate = true
-      · simp [ha, strobe]
-        constructor
-        · simp [St.ver]
-        · exact h.snap_ok
-        · exact h.view_ok
-        · exact h.view_snap
-        · intro hx
-          simp at hx
-        · intro _ _ _ _ _ _
-          rfl
-        · intro _
-          left; rfl
-      · simp [ha, strobe]
-        constructor
-        · simp [St.ver]
-        · exact h.snap_ok
-        · exact h.view_ok
-        · exact h.view_snap
-        · intro hx
-          simp at hx
-        · intro _ _ _ _ _ _
-          rfl
-        · intro _
-          left; rfl
+  · simp only at hs
+    split at hs
+    · simp at hs
+    · simp only [Option.some.injEq, Prod.mk.injEq] at hs
+      obtain ⟨h1, h2⟩ := hs
+      subst h2
+      exact ⟨h1.symm, rfl⟩
   · simp at hs
+
+theorem inv_transFinish {s : St} (made : Bool) (h : Inv s) : Inv (transFinish s made) := by
+  unfold transFinish
+  cases made
+  · -- nothing changed
+    simp
+    exact ⟨h.tver_le, h.snap_ok, h.view_ok, h.view_snap, h.accel, h.div, h.strobed_ok⟩
+  · by_cases ha : s.accelerate = true
+    · simp [ha, strobe]
+      constructor
+      · simp [St.ver]
+      · exact h.snap_ok
+      · exact h.view_ok
+      · exact h.view_snap
+      · intro hx
+        simp at hx
+      · intro _ _ _ _ _ _
+        rfl
+      · intro _
+        left; rfl
+    · simp [ha, strobe]
+      constructor
+      · simp [St.ver]
+      · exact h.snap_ok
+      · exact h.view_ok
+      · exact h.view_snap
+      · intro hx
+        simp at hx
+      · intro _ _ _ _ _ _
+        rfl
+      · intro _
+        left; rfl
+
+theorem inv_transEnd {s s' : St} {made : Bool} {olds results : List (Option Ent)} (h : Inv s)
+    (hs : transEnd s olds results = some (s', made)) : Inv s' := by
+  rw [(transEnd_some hs).1]
+  exact inv_transFinish made h
+
+theorem inv_tickFail {s : St} (h : Inv s) : Inv (tickFail s) := by
+  unfold tickFail strobe
+  exact ⟨h.tver_le, h.snap_ok, h.view_ok, h.view_snap, by intro hx; simp at hx, fun _ _ _ _ _ _ => rfl,
+    fun _ => Or.inl rfl⟩
 
 theorem inv_poll {s s' : St} (h : Inv s) (hs : pollReturn s = some s') : Inv s' := by
   unfold pollReturn at hs
@@ -234,11 +251,13 @@ theorem inv_poll {s s' : St} (h : Inv s) (hs : pollReturn s = some s') : Inv s' 
 
 theorem inv_step {s s' : St} {l : Label} (h : Inv s) (st : Step s l s') : Inv s' := by
   match st with
-  | .tick _ => exact inv_tick h
-  | .scan _ full _ => exact inv_scan full h
+  | .tick _ _ => exact inv_tick h
+  | .tickFail _ _ => exact inv_tickFail h
+  | .setBroken _ b => exact ⟨h.tver_le, h.snap_ok, h.view_ok, h.view_snap, h.accel, h.div, h.strobed_ok⟩
+  | .scan _ full _ _ => exact inv_scan full h
   | .transBegin _ c _ hs => exact inv_transBegin c h hs
   | .transApply _ _ hs => exact inv_transApply h hs
-  | .transEnd _ _ _ hs => exact inv_transEnd h hs
+  | .transEnd _ _ _ _ _ hs => exact inv_transEnd h hs
   | .edit _ c => exact inv_setDisk c h
   | .poll _ _ hs => exact inv_poll h hs
 
@@ -251,9 +270,11 @@ theorem inv_run {s s' : St} {tr : List Label} (h : Inv s) (r : Run s tr s') : In
 
 theorem ver_step {s s' : St} {l : Label} (st : Step s l s') : s.ver ≤ s'.ver := by
   match st with
-  | .tick _ =>
+  | .tick _ _ =>
     rw [tick_eq]; split <;> simp [strobe, tickCore, St.ver]
-  | .scan _ full _ =>
+  | .tickFail _ _ => simp [tickFail, strobe, St.ver]
+  | .setBroken _ b => simp [St.ver]
+  | .scan _ full _ _ =>
     by_cases hacc : s.accelerate = true ∧ full = false
     · cases hsn : s.snapshot with
       | none => simp [scan, hacc.1, hacc.2, hsn, St.ver]
@@ -271,14 +292,10 @@ theorem ver_step {s s' : St} {l : Label} (st : Step s l s') : s.ver ≤ s'.ver :
     split at hs
     · simp at hs; subst hs; simp [setDisk, St.ver]
     · simp at hs
-  | .transEnd _ _ _ hs =>
-    unfold transEnd at hs
-    split at hs
-    · simp only [Option.some.injEq, Prod.mk.injEq] at hs
-      obtain ⟨h1, _⟩ := hs
-      subst h1
-      split <;> split <;> simp [strobe, St.ver]
-    · simp at hs
+  | .transEnd _ _ made _ _ hs =>
+    rw [(transEnd_some hs).1]
+    unfold transFinish
+    cases made <;> by_cases ha : s.accelerate = true <;> simp [ha, strobe, St.ver]
   | .edit _ c => simp [edit, setDisk, St.ver]
   | .poll _ _ hs =>
     unfold pollReturn at hs
@@ -288,9 +305,11 @@ theorem ver_step {s s' : St} {l : Label} (st : Step s l s') : s.ver ≤ s'.ver :
 
 theorem tver_step {s s' : St} {l : Label} (h : Inv s) (st : Step s l s') : s.tver ≤ s'.tver := by
   match st with
-  | .tick _ =>
+  | .tick _ _ =>
     rw [tick_eq]; split <;> simp [strobe, tickCore]
-  | .scan _ full _ =>
+  | .tickFail _ _ => simp [tickFail, strobe]
+  | .setBroken _ b => simp
+  | .scan _ full _ _ =>
     by_cases hacc : s.accelerate = true ∧ full = false
     · cases hsn : s.snapshot with
       | none => simp [scan, hacc.1, hacc.2, hsn]
@@ -308,15 +327,11 @@ theorem tver_step {s s' : St} {l : Label} (h : Inv s) (st : Step s l s') : s.tve
     split at hs
     · simp at hs; subst hs; simp [setDisk]
     · simp at hs
-  | .transEnd _ _ _ hs =>
-    unfold transEnd at hs
-    split at hs
-    · simp only [Option.some.injEq, Prod.mk.injEq] at hs
-      obtain ⟨h1, _⟩ := hs
-      subst h1
-      have := h.tver_le
-      split <;> split <;> simp [strobe, St.ver] at * <;> omega
-    · simp at hs
+  | .transEnd _ _ made _ _ hs =>
+    rw [(transEnd_some hs).1]
+    have := h.tver_le
+    unfold transFinish
+    cases made <;> by_cases ha : s.accelerate = true <;> simp [ha, strobe, St.ver] at * <;> omega
   | .edit _ c => simp [edit, setDisk]
   | .poll _ _ hs =>
     unfold pollReturn at hs
@@ -329,21 +344,18 @@ theorem tver_run {s s' : St} {tr : List Label} (h : Inv s) (r : Run s tr s') : s
   | nil => exact Nat.le_refl _
   | snoc r' st ih => exact Nat.le_trans ih (tver_step (inv_run h r') st)
 
-theorem transEnd_true_tver {s s' : St} (hs : transEnd s = some (s', true)) : s'.tver = s'.ver := by
-  unfold transEnd at hs
-  split at hs
-  · rename_i t m _
-    simp only [Option.some.injEq, Prod.mk.injEq] at hs
-    obtain ⟨e1, e2⟩ := hs
-    subst e2
-    subst e1
-    by_cases ha : s.accelerate = true <;> simp [ha, strobe, St.ver]
-  · simp at hs
+theorem transEnd_true_tver {s s' : St} {olds results : List (Option Ent)}
+    (hs : transEnd s olds results = some (s', true)) : s'.tver = s'.ver := by
+  rw [(transEnd_some hs).1]
+  unfold transFinish
+  by_cases ha : s.accelerate = true <;> simp [ha, strobe, St.ver]
 
 theorem repaired_step {s s' : St} {l : Label} (st : Step s l s') : s'.repaired = s.repaired := by
   match st with
-  | .tick _ => rw [tick_eq]; split <;> simp [strobe, tickCore]
-  | .scan _ full _ =>
+  | .tick _ _ => rw [tick_eq]; split <;> simp [strobe, tickCore]
+  | .tickFail _ _ => simp [tickFail, strobe]
+  | .setBroken _ b => rfl
+  | .scan _ full _ _ =>
     by_cases hacc : s.accelerate = true ∧ full = false
     · cases hsn : s.snapshot with
       | none => simp [scan, hacc.1, hacc.2, hsn]
@@ -361,14 +373,10 @@ theorem repaired_step {s s' : St} {l : Label} (st : Step s l s') : s'.repaired =
     split at hs
     · simp at hs; subst hs; rfl
     · simp at hs
-  | .transEnd _ _ _ hs =>
-    unfold transEnd at hs
-    split at hs
-    · simp only [Option.some.injEq, Prod.mk.injEq] at hs
-      obtain ⟨e1, _⟩ := hs
-      subst e1
-      split <;> split <;> simp [strobe]
-    · simp at hs
+  | .transEnd _ _ made _ _ hs =>
+    rw [(transEnd_some hs).1]
+    unfold transFinish
+    cases made <;> by_cases ha : s.accelerate = true <;> simp [ha, strobe]
   | .edit _ c => rfl
   | .poll _ _ hs =>
     unfold pollReturn at hs
@@ -392,7 +400,10 @@ def u1 : St := tick u0
 def u2 : St := (scan u1 false).1
 def u3 : St := (transBegin u2 2).getD u2
 def u4 : St := (transApply u3).getD u3
-def u5 : St := ((transEnd u4).map (·.1)).getD u4
+/-- a created directory: the old entry is absent, the result is a directory. -/
+def uOlds : List (Option Ent) := [none]
+def uResults : List (Option Ent) := [some ⟨1, []⟩]
+def u5 : St := ((transEnd u4 uOlds uResults).map (·.1)).getD u4
 def u6 : St := (pollReturn u5).getD u5
 def u7 : St := (scan u6 false).1
 def u8 : St := edit u7 1
